@@ -5,7 +5,7 @@ import PoolModel.Util
 ```
 reset
 addacct k value expiry state bkey optx opidx hint tx ver
-submit n state unfilled units min
+submit n state unfilled units min isBid tier extras
 stage id tx feeOk <orders> <omods> <accts> <amods> <matches>
 updorder n <mods>          updorders <ns> <modss>          updacct k <mods>
 complete | discard | reopen | spend
@@ -73,7 +73,7 @@ def acctStr (p : Key × Acct) : String :=
   s!"{p.1}:{a.value},{a.expiry},{a.state},{a.bkey},{a.opTx},{a.opIdx},{a.hint},{a.tx},{a.version}"
 
 def ordStr (p : Key × Ord) : String :=
-  s!"{p.1}:{p.2.state},{p.2.unfilled},{p.2.units},{p.2.minMatch}"
+  s!"{p.1}:{p.2.state},{p.2.unfilled},{p.2.units},{p.2.minMatch},{if p.2.isBid then 1 else 0},{p.2.tier},{p.2.extras}"
 
 def snapOrdStr (p : Key × Ord) : String := s!"{p.1}:{p.2.state},{p.2.unfilled},{p.2.units}"
 
@@ -153,7 +153,10 @@ def drvStep (db : DB) (args : List String) : DB × String :=
     | _ => (db, "bad-op")
   | "submit" :: rest =>
     match rest.mapM String.toNat? with
-    | some [n, s, u, un, m] => doOp db (.submitOrder n { state := s, unfilled := u, units := un, minMatch := m })
+    | some [n, s, u, un, m, b, t, x] =>
+      if b > 1 then (db, "bad-op") else
+      doOp db (.submitOrder n { state := s, unfilled := u, units := un, minMatch := m, isBid := b == 1, tier := t,
+                                extras := x })
     | _ => (db, "bad-op")
   | ["stage", id, tx, fee, os, oms, as, ams, mt] =>
     match id.toNat?, tx.toNat?, bool? fee, keyList? os, modLists? omod? oms, keyList? as, modLists? amod? ams,
